@@ -26,7 +26,7 @@ ASSUMPTIONS = [
     "bitwise comparison of runs made by the same process with the same compiled code",
     "small grids (<=6 nodes) and PTO<=2 keep a TMC history affordable; the cache logic does not depend on grid size",
 ]
-BUDGET = {"quick": {"examples": 800, "wall": 420, "min_evaluations": 200}, "thorough": {"examples": 6000, "wall": 2400, "min_evaluations": 1500}}
+BUDGET = {"quick": {"examples": 800, "wall": 420, "min_evaluations": 200}, "thorough": {"examples": 10000, "wall": 2400, "min_evaluations": 1500}}
 MANDATORY = {
     t: ["nontrivial", "tmc:on", "tmc:off", "target:other", "process:CC", "xs", "duplicate-point", "repeated-q2", "rerun", "x-is-xi", "x-on-node", "two-heavyness", "key-order:Q2-first", "caller-overwrites-returned-results", "ulp-neighbour-of-another-point"]
     for t in ("quick", "thorough")
